@@ -1100,6 +1100,15 @@ fn gen_c06(tier: &str, rng: &mut Rng, emit: &mut dyn FnMut(Op)) {
             emit(Op::s("pattern.best", &["foo-[0-9.]*", &format!("foo-{}", v1), &format!("foo-{}", v2)]));
         }
     }
+    // a glob's '*' takes further hyphens too: such a candidate matches and takes part in the ranking
+    for p in ["foo-[0-9]*", "{foo,bar}-[0-9]*", "foo-*", "foo-[0-9]*-*"] {
+        for a in ["foo-1-2", "foo-1.0-rc1", "foo-2024-01-01", "foo-1-", "foo-1-2-3"] {
+            for b2 in ["foo-0.5", "foo-1.5", "foo-3", "bar-1.0", "foo-1", "foo-2"] {
+                emit(Op::s("pattern.best", &[p, a, b2]));
+                emit(Op::s("pattern.best", &[p, b2, a]));
+            }
+        }
+    }
     // hyphenated bases (also with "nb" or digits inside): the version is the text after the LAST '-'
     for (b1, b2) in [("app-a", "app-b"), ("a-nb5x", "a-nb5x"), ("foo-1", "foo-1"), ("x-2.0-y", "x-2.0-y"), ("app-b", "app-a"), ("p-nb2", "p-nb3")] {
         for v1 in ["1.0", "1.0nb2", "0.5", "2", "1.0alpha", "1"] {
